@@ -421,11 +421,16 @@ size_t SharedMonotonicBufferResource::space_allocated() const noexcept {
 void SharedMonotonicBufferResource::register_thread_constructor() noexcept {
   assert(space_allocated() == 0 &&
          "can not change page_allocator or upstream after allocate");
-  _resources.set_constructor([&](ExclusiveMonotonicBufferResource* ptr) {
-    new (ptr) ExclusiveMonotonicBufferResource;
-    ptr->set_page_allocator(*_page_allocator);
-    ptr->set_upstream(*_upstream);
-  });
+  // capture the current values instead of this: the constructor travels with a
+  // moved resource and must not refer back to the moved-from object
+  auto page_allocator = _page_allocator;
+  auto upstream = _upstream;
+  _resources.set_constructor(
+      [page_allocator, upstream](ExclusiveMonotonicBufferResource* ptr) {
+        new (ptr) ExclusiveMonotonicBufferResource;
+        ptr->set_page_allocator(*page_allocator);
+        ptr->set_upstream(*upstream);
+      });
 }
 // SharedMonotonicBufferResource end
 ////////////////////////////////////////////////////////////////////////////////
